@@ -14,7 +14,7 @@ def rnd(count, length):
 def enum(depth, limit):
     return ("enum", dict(depth=depth, limit=limit))
 
-Q = [rnd(3000, 40), enum(5, 4000)]
+Q = [rnd(12000, 50), enum(6, 30000)]
 T = [rnd(60000, 80), enum(8, 300000)]
 
 SEM = [("sem", n) for n in (0, 1, 2, 3)]
